@@ -21,7 +21,23 @@ Quantifier: every world, every action handle, every environment.  Listed hypothe
 `Healthy env` (no destination raises: otherwise `eliot:destination_failure` reports follow the
 message — see the `…_any_env` variants, which need no such hypothesis), `a.sers = none` (no typed
 serializers for start / success messages: C13 covers them), and in `extractor_raise_contained` that
-the extractor's own exception has no (raising) extractor again.
+global fields do not override `message_type` / `reason` / `exception`.
+
+How "exactly one" is stated.  Per call: every `_start` stages exactly one start dict
+(`one_start_message`, `…_any_env`); `finish` on an unfinished action stages exactly one end dict, on a
+finished one it is the identity on the whole state (`one_end_message`, `finish_idempotent`); `finish`
+always leaves the action finished and no program ever un-finishes it (`finished_stays_finished`,
+`no_second_end`, `finish_program_finish`, `withBlock_finishes`).  NOT proved as one theorem is the
+counting formulation over a whole run,
+
+    theorem one_start_one_end (p : Block) : ∀ action a finished during `execB env none {} p`,
+      |{m ∈ stage | m is a start message at a's place}| = 1 ∧ |{m ∈ stage | m is an end message at a's place}| = 1
+
+Missing for it: the stage does not record which handle a dict was written for, so the count has to
+go through the place (uuid, level) — i.e. it needs C02's `actions_unique` / `levels_unique` plus the
+side condition that no user field of any message is named `action_status` — in an invariant that is
+not a relation of the `Basic` kind (`stagePush` of an arbitrary dict does not preserve a count).  The
+counting form is what the model-free oracle of `harness/props/C03.py` checks on the real code.
 -/
 namespace Sys.C03
 open Sys Sys.C04 Sys.C08 Sys.C13
@@ -169,22 +185,22 @@ failure dict built from what it returned.  `a'` is the action as `get_fields_for
 (a traceback logged in this action's own context has taken a position). -/
 theorem finish_err_stage (env : Env) (hh : Healthy env) (w : World) (h : Nat) (a : Act) (e : Exc)
     (ha : w.acts[h]? = some a) (hf : a.finished = false) :
-    ∃ a' : Act, (World.getFields env FUEL (w.setFin h a) e).1.acts[h]? = some a' ∧
+    ∃ a' : Act, (World.getFields env (w.setFin h a) e).1.acts[h]? = some a' ∧
       a'.uuid = a.uuid ∧ a'.level = a.level ∧ a'.atype = a.atype ∧ a.last ≤ a'.last ∧
-      (w.finishRec env h (some e)).stage = (World.getFields env FUEL (w.setFin h a) e).1.stage ++
-        [Fields.update (failDict env a' (.ts (World.getFields env FUEL (w.setFin h a) e).1.tick) e
-          (World.getFields env FUEL (w.setFin h a) e).2) w.globals] := by
-  have fg := frame_getFields env FUEL (w.setFin h a) e
+      (w.finishRec env h (some e)).stage = (World.getFields env (w.setFin h a) e).1.stage ++
+        [Fields.update (failDict env a' (.ts (World.getFields env (w.setFin h a) e).1.tick) e
+          (World.getFields env (w.setFin h a) e).2) w.globals] := by
+  have fg := frame_getFields env (w.setFin h a) e
   obtain ⟨a', h1, h2, h3, h4, _, _, h7, _⟩ := fg.keep h _ (setFin_get w h a ha)
   refine ⟨a', h1, h2, h3, h7, h4, ?_⟩
   rw [finishRec_err_eq env w h a e ha hf]
-  have hc : (World.getFields env FUEL (w.setFin h a) e).1.clock.1.acts[h]? = some a' := h1
-  have q := (quiet_clock (World.getFields env FUEL (w.setFin h a) e).1).trans
-    (quiet_nextLevel (World.getFields env FUEL (w.setFin h a) e).1.clock.1 h)
-  have hgl : (World.getFields env FUEL (w.setFin h a) e).1.globals = w.globals := fg.globals
+  have hc : (World.getFields env (w.setFin h a) e).1.clock.1.acts[h]? = some a' := h1
+  have q := (quiet_clock (World.getFields env (w.setFin h a) e).1).trans
+    (quiet_nextLevel (World.getFields env (w.setFin h a) e).1.clock.1 h)
+  have hgl : (World.getFields env (w.setFin h a) e).1.globals = w.globals := fg.globals
   have key : ∀ s, s = none ∨ s = some [] → ∀ m, (World.loggerWrite env
-      ((World.getFields env FUEL (w.setFin h a) e).1.clock.1.nextLevel h).1 m s).stage =
-      (World.getFields env FUEL (w.setFin h a) e).1.stage ++ [Fields.update m w.globals] := by
+      ((World.getFields env (w.setFin h a) e).1.clock.1.nextLevel h).1 m s).stage =
+      (World.getFields env (w.setFin h a) e).1.stage ++ [Fields.update m w.globals] := by
     intro s hs m
     rcases hs with hs | hs <;> subst hs
     · rw [loggerWrite_none, send_healthy_stage env hh, q.stage, q.frame.globals, hgl]
@@ -193,20 +209,19 @@ theorem finish_err_stage (env : Env) (hh : Healthy env) (w : World) (h : Nat) (a
   simp only [failDict, h2, h3, h7]
 
 theorem getFields_noext (env : Env) (w : World) (e : Exc) (hx : firstExtractor env (env.mro (e.cls env)) = none) :
-    World.getFields env FUEL w e = (w, []) := by
-  simp [FUEL, World.getFields, hx]
+    World.getFields env w e = (w, []) := by
+  simp [World.getFields, hx]
 
 theorem getFields_ok (env : Env) (w : World) (e : Exc) (f : Exc → Nat → Except Exc Fields) (fs : Fields)
     (hx : firstExtractor env (env.mro (e.cls env)) = some f) (hr : f e w.extCalls = .ok fs) :
-    World.getFields env FUEL w e = ({ w with extCalls := w.extCalls + 1 }, fs) := by
-  simp [FUEL, World.getFields, hx, hr]
+    World.getFields env w e = ({ w with extCalls := w.extCalls + 1 }, fs) := by
+  simp [World.getFields, hx, hr]
 
 theorem getFields_raise (env : Env) (w : World) (e e' : Exc) (f : Exc → Nat → Except Exc Fields)
-    (hx : firstExtractor env (env.mro (e.cls env)) = some f) (hr : f e w.extCalls = .error e')
-    (hx' : firstExtractor env (env.mro (e'.cls env)) = none) :
-    World.getFields env FUEL w e =
+    (hx : firstExtractor env (env.mro (e.cls env)) = some f) (hr : f e w.extCalls = .error e') :
+    World.getFields env w e =
       (({ w with extCalls := w.extCalls + 1 } : World).logNoSer env "eliot:traceback" (tracebackFields env e' []), []) := by
-  simp [FUEL, World.getFields, hx, hr, hx']
+  simp [World.getFields, hx, hr]
 
 /-! ## finishing again emits nothing and changes nothing -/
 
@@ -264,13 +279,13 @@ theorem one_start_message (env : Env) (hh : Healthy env) (w : World) (h : Nat) (
 /-- what `get_fields_for_exception` returns, for every environment: the fields of the extractor
 registered for the nearest class in the MRO, `{}` when there is none or when it raises -/
 theorem getFields_fields (env : Env) (w : World) (e : Exc) :
-    (World.getFields env FUEL w e).2 =
+    (World.getFields env w e).2 =
       (match firstExtractor env (env.mro (e.cls env)) with
        | none => []
        | some f => match f e w.extCalls with
          | .ok fs => fs
          | .error _ => []) := by
-  simp only [FUEL, World.getFields]
+  simp only [World.getFields]
   cases firstExtractor env (env.mro (e.cls env)) with
   | none => rfl
   | some f =>
@@ -288,7 +303,7 @@ theorem end_message (env : Env) (hh : Healthy env) (w : World) (h : Nat) (a : Ac
       (m.get? "action_status" = some (.str "failed") ↔ exc ≠ none) ∧
       (m.get? "action_status" = some (.str "succeeded") ↔ exc = none) ∧
       (∀ e, exc = some e → m.get? "exception" = some (.str (e.qual env)) ∧ m.get? "reason" = some (.str (e.safeStr env)) ∧
-        ∀ k, k ∉ STRUCT → k ≠ "exception" → k ≠ "reason" → m.get? k = (World.getFields env FUEL (w.setFin h a) e).2.get? k) ∧
+        ∀ k, k ∉ STRUCT → k ≠ "exception" → k ≠ "reason" → m.get? k = (World.getFields env (w.setFin h a) e).2.get? k) ∧
       (exc = none → ∀ k, k ∉ STRUCT → m.get? k = a.succ.get? k) ∧
       m.get? "task_uuid" = some (.uuid a.uuid) ∧ m.get? "action_type" = some (.str a.atype) ∧
       (∃ n, a.last ≤ n ∧ m.get? "task_level" = some (.lvl (a.level ++ [n + 1]))) ∧
@@ -305,10 +320,10 @@ theorem end_message (env : Env) (hh : Healthy env) (w : World) (h : Nat) (a : Ac
     · intro e he; cases he
   | some e =>
     obtain ⟨a', h1, h2, h3, h4, h5, h6⟩ := finish_err_stage env hh w h a e ha hf
-    obtain ⟨pre, hpre⟩ := (frame_getFields env FUEL (w.setFin h a) e).stage
-    have hpre' : (World.getFields env FUEL (w.setFin h a) e).1.stage = w.stage ++ pre := hpre.symm
-    obtain ⟨s1, s2, s3, s4, s5, s6, s7⟩ := failDict_spec env a' (.ts (World.getFields env FUEL (w.setFin h a) e).1.tick) e
-      (World.getFields env FUEL (w.setFin h a) e).2
+    obtain ⟨pre, hpre⟩ := (frame_getFields env (w.setFin h a) e).stage
+    have hpre' : (World.getFields env (w.setFin h a) e).1.stage = w.stage ++ pre := hpre.symm
+    obtain ⟨s1, s2, s3, s4, s5, s6, s7⟩ := failDict_spec env a' (.ts (World.getFields env (w.setFin h a) e).1.tick) e
+      (World.getFields env (w.setFin h a) e).2
     refine ⟨pre, _, by rw [h6, hpre'], ?_, ?_, ?_, ?_, by rw [s4, h2], by rw [s6, h4], ⟨a'.last, h5, by rw [s5, h3]⟩, ?_⟩
     · rw [s1]; simp
     · rw [s1]; simp
@@ -317,7 +332,7 @@ theorem end_message (env : Env) (hh : Healthy env) (w : World) (h : Nat) (a : Ac
       exact ⟨s2, s3, s7⟩
     · intro he; cases he
     · intro hx
-      have hq : (World.getFields env FUEL (w.setFin h a) e).1.stage = w.stage ∧ a'.last = a.last := by
+      have hq : (World.getFields env (w.setFin h a) e).1.stage = w.stage ∧ a'.last = a.last := by
         rcases hx e rfl with hx | ⟨f, fs, hx, hr⟩
         · rw [getFields_noext env _ e hx] at h1 ⊢
           rw [setFin_get w h a ha] at h1
@@ -432,8 +447,8 @@ theorem fields_placement (env : Env) (hh : Healthy env) (w : World) (h : Nat) (a
     (∀ e : Exc, ∃ (pre : List Msg) (m : Msg),
       (w.finishRec env h (some e)).stage = w.stage ++ pre ++ [Fields.update m w.globals] ∧
       (∀ k, m.get? k ≠ none →
-        k ∈ (World.getFields env FUEL (w.setFin h a) e).2.keys ∨ k = "exception" ∨ k = "reason" ∨ k ∈ STRUCT) ∧
-      (∀ k, k ∉ STRUCT → k ≠ "exception" → k ≠ "reason" → k ∉ (World.getFields env FUEL (w.setFin h a) e).2.keys →
+        k ∈ (World.getFields env (w.setFin h a) e).2.keys ∨ k = "exception" ∨ k = "reason" ∨ k ∈ STRUCT) ∧
+      (∀ k, k ∉ STRUCT → k ≠ "exception" → k ≠ "reason" → k ∉ (World.getFields env (w.setFin h a) e).2.keys →
         m.get? k = none)) := by
   refine ⟨fun hs => ?_, fun e => ?_⟩
   · obtain ⟨_, _, _, _, s5⟩ := succDict_spec a (.ts w.tick)
@@ -523,12 +538,12 @@ theorem buildLog_get (w : World) (h : Nat) (t : String) (f : Fields) :
     rw [Fields.get?_set_ne _ _ _ _ k4, Fields.get?_set_ne _ _ _ _ k3, Fields.get?_set_ne _ _ _ _ k2,
       Fields.get?_set_ne _ _ _ _ k1]
 
-/-- `finish(e)` when the extractor for `e` raises `e'` (and `e'` has no extractor of its own):
-exactly one `eliot:traceback` for `e'`, then the failed end without any extractor field. -/
+/-- `finish(e)` when the extractor for `e` raises `e'` (whatever `e'` is — while that failure is being
+logged no extractor is consulted): exactly one `eliot:traceback` for `e'`, then the failed end without
+any extractor field. -/
 theorem finish_extractor_raises (env : Env) (hh : Healthy env) (w : World) (h : Nat) (a : Act) (e e' : Exc)
     (f : Exc → Nat → Except Exc Fields) (ha : w.acts[h]? = some a) (hf : a.finished = false)
     (hx : firstExtractor env (env.mro (e.cls env)) = some f) (hr : f e w.extCalls = .error e')
-    (hx' : firstExtractor env (env.mro (e'.cls env)) = none)
     (hg1 : w.globals.get? "message_type" = none) (hg2 : w.globals.get? "reason" = none)
     (hg3 : w.globals.get? "exception" = none) :
     ∃ (tb m : Msg), (w.finishRec env h (some e)).stage = w.stage ++ [tb, Fields.update m w.globals] ∧
@@ -540,7 +555,7 @@ theorem finish_extractor_raises (env : Env) (hh : Healthy env) (w : World) (h : 
       ∀ k, k ∉ STRUCT → k ≠ "exception" → k ≠ "reason" → m.get? k = none := by
   obtain ⟨a', _, h2, _, h4, _, h6⟩ := finish_err_stage env hh w h a e ha hf
   have hr' : f e (w.setFin h a).extCalls = .error e' := hr
-  rw [getFields_raise env _ e e' f hx hr' hx'] at h6
+  rw [getFields_raise env _ e e' f hx hr'] at h6
   simp only at h6
   rw [logNoSer_stage_eq env hh] at h6
   obtain ⟨s1, s2, s3, s4, _, s6, s7⟩ := failDict_spec env a'
@@ -560,7 +575,8 @@ theorem finish_extractor_raises (env : Env) (hh : Healthy env) (w : World) (h : 
   · rw [s7 k k1 k2 k3]; rfl
 
 /-- **extractor_raise_contained**: the body of `with action:` raised `e`, the extractor registered for
-the nearest class of `e`'s MRO raises `e'` (which has no extractor itself).  Then the block stages
+the nearest class of `e`'s MRO raises `e'` (any exception: extractors are not consulted while the
+failure is being logged).  Then the block stages
 exactly one `eliot:traceback` describing `e'`, followed by the `failed` end message of `e` with *no*
 extractor field at all (`get_fields_for_exception` returned `{}`), and the block's outcome is still
 `raised e`: the extractor's exception neither escapes nor replaces `e`.  (Global fields must not
@@ -570,7 +586,6 @@ theorem extractor_raise_contained (env : Env) (hh : Healthy env) (w : World) (h 
     (hr0 : (run { w with ctx := some h }).2 = .raised e)
     (ha : (run { w with ctx := some h }).1.acts[h]? = some a) (hf : a.finished = false)
     (hx : firstExtractor env (env.mro (e.cls env)) = some f) (hr : f e (run { w with ctx := some h }).1.extCalls = .error e')
-    (hx' : firstExtractor env (env.mro (e'.cls env)) = none)
     (hg1 : (run { w with ctx := some h }).1.globals.get? "message_type" = none)
     (hg2 : (run { w with ctx := some h }).1.globals.get? "reason" = none)
     (hg3 : (run { w with ctx := some h }).1.globals.get? "exception" = none) :
@@ -586,7 +601,7 @@ theorem extractor_raise_contained (env : Env) (hh : Healthy env) (w : World) (h 
       (withBlock env w h run).2 = .raised e := by
   have ha' : ({ (run { w with ctx := some h }).1 with ctx := w.ctx } : World).acts[h]? = some a := ha
   obtain ⟨tb, m, e1, e2, e3, e4, e5, e6, e7, e8, e9, e10⟩ := finish_extractor_raises env hh
-    ({ (run { w with ctx := some h }).1 with ctx := w.ctx } : World) h a e e' f ha' hf hx hr hx' hg1 hg2 hg3
+    ({ (run { w with ctx := some h }).1 with ctx := w.ctx } : World) h a e e' f ha' hf hx hr hg1 hg2 hg3
   refine ⟨tb, m, ?_, e2, e3, e4, e5, e6, e7, e8, e9, e10, hr0⟩
   simp only [withBlock, hr0, outcomeExc]
   exact e1
@@ -699,7 +714,7 @@ theorem one_end_message_any_env (env : Env) (w : World) (h : Nat) (a : Act)
 /-! ## Non-vacuity
 Exception `i` has class `i`.  Class 3 has the diamond MRO `[3, 2, 1, 0]`; extractors are registered for
 1 (→ `code`) and 0 (→ `root`): the nearest one for an instance of 3 is class 1's, not class 0's.
-Class 5's extractor raises exception 6 (class 6, no extractor).  `str()` of exception 4 raises.
+Class 5's extractor raises exception 3 (whose class does have an extractor: it must not be consulted).  `str()` of exception 4 raises.
 Classes 7 (think `KeyboardInterrupt`) and 8 are bare. -/
 def exEnv : Env where
   classOf := fun i => i
@@ -710,7 +725,7 @@ def exEnv : Env where
   extractor := fun c =>
     if c = 1 then some (fun _ _ => .ok [("code", .nat 7)])
     else if c = 0 then some (fun _ _ => .ok [("root", .nat 0)])
-    else if c = 5 then some (fun _ _ => .error (.user 6))
+    else if c = 5 then some (fun _ _ => .error (.user 3))
     else none
   serialize := fun s v k => .ok (.serOut s k v)
   destFails := fun _ _ => none
@@ -741,9 +756,8 @@ example : (exW.startRec exEnv 0 [("x", .nat 1)]).stage.map view =
 example : exW.acts[0]? = some { uuid := 0, level := [2], last := 1, succ := [("y", .nat 2), ("z", .nat 3)], atype := "app:a" } ∧
     firstExtractor exEnv (exEnv.mro ((Exc.user 7).cls exEnv)) = none ∧
     nearest exEnv (exEnv.mro ((Exc.user 3).cls exEnv)) = some 1 ∧
-    (∃ f, firstExtractor exEnv (exEnv.mro ((Exc.user 5).cls exEnv)) = some f ∧ f (.user 5) 0 = .error (.user 6)) ∧
-    firstExtractor exEnv (exEnv.mro ((Exc.user 6).cls exEnv)) = none :=
-  ⟨rfl, rfl, rfl, ⟨_, rfl, rfl⟩, rfl⟩
+    (∃ f, firstExtractor exEnv (exEnv.mro ((Exc.user 5).cls exEnv)) = some f ∧ f (.user 5) 0 = .error (.user 3)) :=
+  ⟨rfl, rfl, rfl, ⟨_, rfl, rfl⟩⟩
 
 /-- failed_iff_raised / fields_placement / extractor_mro / exc_identity on a program: three nested
 blocks; the innermost raises exception 3 (diamond MRO → class 1's extractor, field `code`, not `root`),
@@ -772,9 +786,9 @@ example : (execB exEnv none {} exProg).1.stage.map view =
       none, none, none, none, none]] ∧
     (execB exEnv none {} exProg).2 = .raised (.user 4) := by decide +kernel
 
-/-- extractor_raise_contained: the body raises exception 5 whose extractor raises exception 6: one
-traceback for 6 (logged in the parent's context — here none, so its own task), then the failed end of 5
-without extractor fields; exception 5 itself leaves the block.  finished_stays_finished / no_second_end:
+/-- extractor_raise_contained: the body raises exception 5 whose extractor raises exception 3: one
+traceback for 3 (logged in the parent's context — here none, so its own task; no `code` field although
+class 1's extractor would apply to 3), then the failed end of 5 without extractor fields; exception 5 itself leaves the block.  finished_stays_finished / no_second_end:
 the later explicit `finish` calls on the handle add nothing. -/
 def exProg2 : Block :=
   .cons (.addDests [0]) <|
@@ -784,7 +798,7 @@ def exProg2 : Block :=
 
 example : (execB exEnv none {} exProg2).1.stage.map view =
     [[some (.str "started"), some (.lvl [1]), none, none, none, none, some (.nat 1), none, none],
-     [none, some (.lvl [1]), some (.str "vmod.C"), some (.str "boom"), none, none, none, none, some (.str "eliot:traceback")],
+     [none, some (.lvl [1]), some (.str "vmod.C3"), some (.str "boom"), none, none, none, none, some (.str "eliot:traceback")],
      [some (.str "failed"), some (.lvl [2]), some (.str "vmod.C"), some (.str "boom"), none, none, none, none, none],
      [none, some (.lvl [1]), none, none, none, none, none, none, some (.str "after")]] ∧
     (execB exEnv none {} exProg2).2 = .ok ∧
